@@ -4,7 +4,8 @@
 # exit 0: no crash; exit 1 + VIOLATION line: crash / timeout artifact saved as a replay; exit 2: could not run.
 set -u
 RUNS=${1:-3000000}; SEED=${2:-1}
-cd /verif/fuzz || exit 2
+ROOT=${VERIF_ROOT:-$(cd "$(dirname "$0")/.." && pwd)}
+cd "$ROOT/fuzz" || exit 2
 cp /repo/Cargo.lock . 2>/dev/null
 if ! cargo fuzz build --fuzz-dir . parse > target/fuzz-build.log 2>&1; then
   mkdir -p target; echo "FUZZ BUILD FAILED"; tail -20 target/fuzz-build.log; exit 2
@@ -21,15 +22,15 @@ NEW=$(grep -o "new_units_added: *[0-9]*" target/fuzz-run-$$.log | grep -o "[0-9]
 found=""
 for f in "$A"*; do
   [ -f "$f" ] || continue
-  mkdir -p /verif/replays/C17
-  dst=/verif/replays/C17/fuzz-$(basename "$f")
+  mkdir -p "$ROOT/replays/C17"
+  dst="$ROOT/replays/C17/fuzz-$(basename "$f")"
   cp "$f" "$dst"; found="$dst"
   echo "VIOLATION property=C17 replay=$dst"
   grep -m3 -E "panicked at|ERROR: libFuzzer|timeout" target/fuzz-run-$$.log | sed 's/^/  /'
 done
-python3 - "$EXEC" "$NEW" "$SEED" "$found" <<'PY'
+python3 - "$EXEC" "$NEW" "$SEED" "$found" "$ROOT" <<'PY'
 import json,sys
-p='/verif/evidence/C17.json'
+p=sys.argv[5]+'/evidence/C17.json'
 try: d=json.load(open(p))
 except Exception: sys.exit(0)
 d.setdefault('coverage',{}).setdefault('notes',[]).append("libFuzzer target fuzz/fuzz_targets/parse.rs (parse_command on one line: no panic, <10 s, two parses agree): %s executions from the 12-file seed corpus, %s new coverage units, seed %s, crash artifacts: %s"%(sys.argv[1] or '?',sys.argv[2] or '?',sys.argv[3],sys.argv[4] or 'none'))
